@@ -6,6 +6,10 @@ V = os.path.dirname(os.path.dirname(os.path.abspath(__file__)))
 TECH = 'contract-based deductive verification: VCs generated from the real function ASTs by pyvc (sidecar contracts), discharged by z3 raced with cvc5'
 
 CLAIMED = {
+ 'C18': dict(
+   text="Deductive, with iteration over a set modelled as an arbitrary enumeration of its members (a fresh unconstrained order per iteration - what the hash seed decides): the project name computed by driver.get_system (a region of the real body) equals the given name or '/'.join(sorted(root names)), i.e. it is a function of the set of roots (this obligation fails on the pre-fix code); Documentable.url decides 'index.html' exactly when the set of root names is the singleton of the page's name, whatever order the set is enumerated in; the sort key of the index pages (_lckey) is injective on qualified names, so those sorts have exactly one result.",
+   note="Whole-output byte identity is NOT carried by contracts: directory traversal order (sorted(iterdir())), the fixed build time, member ordering, the template writer, the search index and the inventory are decided by the bounded native 2-run harness only (fresh interpreters with PYTHONHASHSEED 1 / 2 / 77, directory listings reversed in the child, output written over a previous result; sha256 of every file; 6 (9) projects). Assumed: sorted() is a function of the multiset of its elements; dicts iterate in insertion order.",
+   ref='6 C18'),
  'C01': dict(
    text="Deductive, for the mechanisms that keep a run going: ASTBuilder.parseFile / parseString let no exception of the parser out (SyntaxError, ValueError, RecursionError), report the file against its module and cache the outcome; parseAll / parseDocformat evaluate the metadata variables without letting literal_eval's ValueError/TypeError out (loop invariant); the module scheduler System.process / processModule / getProcessedModule is verified as a state machine under an explicit invariant (the waiting list holds exactly the registered UNPROCESSED modules, each once): none of its five assertions can fail, ValueError from list.remove cannot occur, the processing stack is balanced, each call strictly shrinks the list, and process() terminates (variant) with an empty list; pages.format_signature lets nothing out and reports against the function (or the overload's primary).",
    note="Assumed: the documented exceptions of ast.parse / literal_eval; ASTBuilder.processModuleAST (the whole AST visitor, extensions and re-entrant imports) preserves the scheduler invariant and raises nothing - that is the part the bounded native harness probes (real driver in-process on 106 module texts, 16 trees, random line/token mutations, 13 standard-library modules and mutations of them, docformats rotating; exit status, written files, sibling documented, unparsable file named). Not under contract: the visitor, post-processing, the template writer, flattening, search index, inventory writer. Known finding KF-C01-lone-surrogate. Options other than --docformat are outside the property's quantifier and are not explored (observations: --prepend-package with an import of the fake package, and hiding every object, abort).",
